@@ -180,6 +180,34 @@ PROPS = {
     },
 }
 
+PROPS["C20"] = {
+    "level": "exploration",
+    "rule": "three parts. capacity: histories (3-20 ops) of AddFact/AddRule (given and generated ids)/RemFact/action-issued Env.AddFact/"
+            "reload with MaxFacts in 1..6 on indexed or linear state; after every op size <= max, size grows by <= 1, an add at capacity "
+            "is refused and a refused add leaves storage and an observation vector unchanged; non-trivial = the history hits capacity and "
+            "later frees a slot. breaker (virtual clock): limit 1..5, interval in {100ms,1s,10s}, 2-130 arrivals with gaps drawn around "
+            "tick (interval/20) and interval boundaries, steady polling faster/slower than a tick, bursts of 2..16 goroutines at one "
+            "instant; oracle: every window (t-interval, t] ending at an admitted call holds <= limit admitted calls, and a call arriving "
+            ">= interval + one tick after the last admission is admitted; non-trivial = the window was filled and later recovered. "
+            "throttle (virtual clock): 1-12 submissions with generated start gaps and work durations, attempts 1..5, pendingLimit 0..4; "
+            "each function runs <= once, Submit's result is consistent (ran => its error, else Exhausted/Overflow), Pending() <= "
+            "pendingLimit+1 at every sample and 0 at the end; non-trivial = some ran and some were refused. Distinct = distinct canonical JSON.",
+    "assumptions": COMMON_ASSUMPTIONS + [
+        "breaker resolution is one tick (interval/20): recovery is required interval + one tick after the last admission",
+        "property facts written by EnableRule/SetProp are not 'public add operations' and are left out of the capacity histories",
+        "the HTTP path of the breaker (status 430) is not exercised here",
+        "concurrent bursts run at one virtual instant; real schedules are sampled, not enumerated",
+    ],
+    "parts": [
+        {"name": "capacity", "mode": "plain", "test": "TestC20Capacity",
+         "quick": {"checks": 1500, "shards": 2}, "thorough": {"checks": 20000, "shards": 8}},
+        {"name": "breaker", "mode": "faketime", "test": "TestC20Breaker",
+         "quick": {"checks": 3000, "shards": 2}, "thorough": {"checks": 50000, "shards": 8}},
+        {"name": "throttle", "mode": "faketime", "test": "TestC20Throttle",
+         "quick": {"checks": 3000, "shards": 2}, "thorough": {"checks": 50000, "shards": 8}},
+    ],
+}
+
 # Properties deliberately not claimed (reason shown in MANIFEST.not_applicable).
 NOT_APPLICABLE = {}
 
@@ -225,6 +253,11 @@ TEXT = {
         "technique": _PBT + "generated rule sets/events vs expected execution multiset (tree leaves, values, Env.out); race-detector build as second oracle",
         "level_text": "Generated exploration: every (rule, binding, action) execution is accounted for exactly once in tree, values and out channel; process death and data races are violations. Not a proof.",
         "level_note": "Trusted: expected-execution calculator built on refmatch + C03 reference evaluator; action programs from four templates.",
+    },
+    "C20": {
+        "technique": _PBT + "generated add/remove histories around the capacity boundary; generated arrival patterns on a virtual clock vs closed-form sliding-window and recovery oracles",
+        "level_text": "Generated exploration of capacity histories and of breaker/throttle arrival patterns (exact instants on a virtual clock). Not a proof.",
+        "level_note": "Trusted: Go faketime mode, the closed-form window oracle; bursts are concurrent goroutines at one virtual instant.",
     },
     "C05": {
         "technique": _PBT + "generated (pattern, data, bindings) vs independent brute-force matcher; substitution round-trip; metamorphic typed variants",
